@@ -428,6 +428,10 @@ func (env *Env) local(name string) (Value, bool) {
 			}
 		}
 	}
+	if ord > len(allocs) && len(allocs) > 0 && fr.spec == nil && fr.parent != nil {
+		// "name#N" in a clause adopted by an inlined helper: the helper declares the name fewer times than the unit did
+		ord = len(allocs)
+	}
 	if len(allocs) == 0 {
 		// a variable captured by a closure: the free variable is a pointer to the enclosing function's cell
 		for _, fv := range fr.fn.FreeVars {
